@@ -1,5 +1,5 @@
 """C02 — arguments and results cross the boundary without loss or alteration."""
-from props import glueprops
+from props import glueprops, rtprops
 from gluerun import SIGMAP
 
 LEVEL = "exploration"
@@ -10,6 +10,9 @@ def run(chk, replay=None):
     glueprops.corpus_samples(chk, m, 4)
     n = chk.parts.get("corpus-native", {})
     calls = int(n.get("calls", 0)) + int(chk.parts.get("corpus-miri", {}).get("calls", 0))
+    rtprops.execute(chk, "extfut", [dict(instr="release", part="ext-futures", count=200 if chk.tier == "quick" else 4000, args=dict(pid="C02")),
+                                    dict(instr="miri", part="ext-futures-miri", count=6, args=dict(pid="C02"))])
+    chk.floor("Sink op sequences through ext objects", chk.parts.get("ext-futures", {}).get("sink_sequences", 0), 2000)
     chk.coverage["evaluations"] = calls
     chk.coverage["distinct_nontrivial"] = int(n.get("histories", 0))
     chk.coverage["rule"] = ("every argument shape (11 scalars incl. NaN bit patterns and extremes, repr(C) struct, &T, &mut T, &[u8|u64|zst|3-byte struct], &mut [u8|u64], &str incl. "
